@@ -145,32 +145,3 @@ long strtol(const char *nptr, char **endptr, int base)
 }
 #endif
 #endif
-
-#ifndef CFGV_NO_REF_REALLOC
-/* reference realloc for the only use in confuse.c (cfg_addval: an array of value pointers).  CBMC's own model
- * allocates a symbolic-size block and copies bytes, which makes every later access to the array expensive
- * (DESIGN 2.2); this one allocates a constant-size block per case and copies pointer-wise.
- * Contract (C11 7.22.3.5): NULL -> old block untouched; else new block, first min(old,new) elements preserved,
- * old block released. */
-#ifndef CFGV_REF_REALLOC_H
-#define CFGV_REF_REALLOC_H
-_Bool cfgv_nondet_fail(void);
-void *realloc(void *old, size_t sz)
-{
-	size_t n = sz / sizeof(void *), on = old ? __CPROVER_OBJECT_SIZE(old) / sizeof(void *) : 0, i;
-	void **nw, **ov = (void **)old;
-	__CPROVER_assert(sz % sizeof(void *) == 0 && sz > 0, "BOUND: reference realloc is used for pointer arrays only");
-	if (n == 1) nw = malloc(1 * sizeof(void *));
-	else if (n == 2) nw = malloc(2 * sizeof(void *));
-	else if (n == 3) nw = malloc(3 * sizeof(void *));
-	else if (n == 4) nw = malloc(4 * sizeof(void *));
-	else if (n == 5) nw = malloc(5 * sizeof(void *));
-	else { __CPROVER_assert(0, "BOUND: reference realloc case split (<= 5 pointers)"); nw = malloc(sz); }
-	if (!nw) return NULL;
-	for (i = 0; i < n && i < on; i++)
-		nw[i] = ov[i];
-	if (old) free(old);
-	return nw;
-}
-#endif
-#endif
